@@ -45,7 +45,7 @@ inductive Tag
   | notLoaded | dagLoaded | trxEmpty | ownNode | genesisIssuer | trxExists | leafExists
   | leafRejected | newLeafRejected | noParent | unexpected | transferFailure | doubleSpending
   | overflow | insufficient | balanceFailure | vertexNotFound | idUnknown | idDuplicate | entityNotFound
-  | genesisRejected | panic
+  | genesisRejected | notCanonical | panic
 deriving DecidableEq, Repr, Inhabited
 
 abbrev Err := List Tag
@@ -216,33 +216,51 @@ structure GVL where
   right : Option Vertex := none
   err : Option Err := none
 
-def getValidLeaves (b : Book) (order : List Vertex) : GVL :=
-  order.foldl (fun (st : GVL) v =>
+/-- One visit of getValidLeaves: `v` is a tip still present in the book. -/
+def visitTip (st : GVL) (v : Vertex) : GVL :=
+  match st.book.validateLeaf v with
+  | .error e =>
+    { st with book := ((st.book.deleteVertex v.hash).indexRemove v.trx.hash).updateWT v.weight, err := some e }
+  | .ok () =>
+    if st.left.isNone then { st with left := some v, err := none } else { st with right := some v, err := none }
+
+def getValidLeaves (b : Book) (order : List Hash) : GVL :=
+  order.foldl (fun (st : GVL) h =>
     if st.left.isSome && st.right.isSome then st else
-    match st.book.validateLeaf v with
-    | .error e =>
-      { st with book := ((st.book.deleteVertex v.hash).indexRemove v.trx.hash).updateWT v.weight, err := some e }
-    | .ok () =>
-      if st.left.isNone then { st with left := some v, err := none } else { st with right := some v, err := none })
+    match st.book.getVertex h with
+    | none => st                       -- not a vertex of the book: not part of the tips map
+    | some v => visitTip st v)
     { book := b }
 
-/-- Insert `tip` with edges from the (deduplicated, in order) `parents`; roll back on AddEdge failure. -/
-def linkNew (b : Book) (tip : Vertex) (parents : List Hash) : Option Book :=
-  let rec go (b : Book) (added : Hash) : List Hash → Option Book
-    | [] => some b
-    | p :: ps =>
-      if p == added then some b else
-      match b.addEdge p tip.hash with
-      | none => none
-      | some b' => go b' p ps
-  go b 0 parents
+/-- Add edges from the (consecutively deduplicated) `parents` to `tip`. -/
+def linkNew (b : Book) (tip : Hash) : Hash → List Hash → Option Book
+  | _, [] => some b
+  | added, p :: ps =>
+    if p == added then some b else
+    match b.addEdge p tip with
+    | none => none
+    | some b' => linkNew b' tip p ps
+
+/-- The common tail of CreateLeaf / addLeafMemorized: saveTrxInVertex, AddVertexByID, AddEdge per
+parent, with the roll-backs of the Go code. Returns the failing stage (1 = index, 2 = vertex, 3 = edge). -/
+def insertLinked (b : Book) (v : Vertex) (parents : List Hash) : Book × Option Nat :=
+  match b.indexSave v.trx.hash v.hash with
+  | none => (b, some 1)
+  | some b2 =>
+    match b2.addVertex v with
+    | none => (b2.indexRemove v.trx.hash, some 2)
+    | some b3 =>
+      match linkNew b3 v.hash 0 parents with
+      | none => ((b3.deleteVertex v.hash).indexRemove v.trx.hash, some 3)
+      | some b4 => (b4, none)
 
 /-- accountant.go CreateLeaf. `order1`/`order2` are the tip iteration orders of the (up to) two
 `getValidLeaves` passes; `tip` is the vertex the implementation produced (time stamp, hash and
 signature are not predictable) and is *checked* against what the code must have built. -/
-def createLeaf (b : Book) (trx : Trx) (order1 order2 : List Vertex) (tip : Vertex) : Book × Except Err Vertex :=
+def createLeaf (b : Book) (trx : Trx) (order1 order2 : List Hash) (tip : Vertex) : Book × Except Err Vertex :=
   if !b.loaded then (b, .error [.notLoaded]) else
   if trx.isEmpty then (b, .error [.trxEmpty]) else
+  if !trx.spice.canonB then (b, .error [.notCanonical]) else
   if trx.issuer == b.self then (b, .error [.ownNode]) else
   if trx.issuer == b.genesis then (b, .error [.genesisIssuer]) else
   if b.indexHas trx.hash then (b, .error [.trxExists]) else
@@ -268,15 +286,10 @@ def createLeaf (b : Book) (trx : Trx) (order1 order2 : List Vertex) (tip : Verte
     let expect : Vertex := { tip with signer := b.self, left := l.hash, right := r.hash,
                                       weight := calcNewWeight l.weight r.weight, trx := trx }
     if expect != tip || !tip.vok then (b1, .error [.unexpected, .panic]) else   -- hint not admissible
-    match b1.indexSave trx.hash tip.hash with
-    | none => (b1, .error [.unexpected])
-    | some b2 =>
-      match b2.addVertex tip with
-      | none => (b2.indexRemove trx.hash, .error [.newLeafRejected])
-      | some b3 =>
-        match linkNew b3 tip [l.hash, r.hash] with
-        | none => ((b3.deleteVertex tip.hash).indexRemove trx.hash, .error [.newLeafRejected])
-        | some b4 => (b4, .ok tip)
+    match insertLinked b1 tip [l.hash, r.hash] with
+    | (b', none) => (b', .ok tip)
+    | (b', some 1) => (b', .error [.unexpected])
+    | (b', some _) => (b', .error [.newLeafRejected])
 
 def checkVertexExists (b : Book) (h : Hash) : Bool := b.hasVertex h || b.cpHasVertex h
 
@@ -312,21 +325,17 @@ def addLeafMemorized (b : Book) (leaf : Vertex) (rep : Nat) : Book × Except Err
   match checkParents b leaf rep [leaf.left, leaf.right] [] with
   | (b1, .error e) => (b1, .error e)
   | (b1, .ok validated) =>
-    match b1.indexSave leaf.trx.hash leaf.hash with
-    | none => (b1, .error [.unexpected, .trxExists])
-    | some b2 =>
-      match b2.addVertex leaf with
-      | none => (b2.indexRemove leaf.trx.hash, .error [.leafRejected])
-      | some b3 =>
-        match linkNew b3 leaf (validated.map (·.hash)) with
-        | none => ((b3.deleteVertex leaf.hash).indexRemove leaf.trx.hash, .error [.leafRejected])
-        | some b4 => (b4, .ok ())
+    match insertLinked b1 leaf (validated.map (·.hash)) with
+    | (b', none) => (b', .ok ())
+    | (b', some 1) => (b', .error [.unexpected, .trxExists])
+    | (b', some _) => (b', .error [.leafRejected])
 
 /-- accountant.go AddLeaf -/
 def addLeaf (b : Book) (leaf : Vertex) : Book × Except Err Unit :=
   if !b.loaded then (b, .error [.notLoaded]) else
   if leaf.trx.issuer == leaf.signer then (b, .error [.ownNode]) else
   if leaf.trx.isEmpty then (b, .error [.trxEmpty]) else
+  if !leaf.trx.spice.canonB then (b, .error [.notCanonical]) else
   b.addLeafMemorized leaf 0
 
 /-- One tick of the orphan buffer (replier.go getNext + runLeafSubscriber). The sort comparator in
@@ -338,11 +347,12 @@ def retryParked (b : Book) : Book × Option (Vertex × Except Err Unit) :=
     let (b', r) := ({ b with parked := rest }).addLeafMemorized v rep
     (b', some (v, r))
 
-/-- accountant.go CreateGenesis; `vrx` is the vertex produced (checked). -/
-def createGenesis (b : Book) (receiver : Addr) (vrx : Vertex) : Book × Except Err Vertex :=
+/-- accountant.go CreateGenesis; `vrx` is the vertex produced (checked against the request). -/
+def createGenesis (b : Book) (receiver : Addr) (spc : Melange) (vrx : Vertex) : Book × Except Err Vertex :=
   if receiver == b.self then (b, .error [.genesisRejected]) else
-  if vrx.signer != b.self || vrx.trx.issuer != b.self || vrx.trx.receiver != receiver
-      || vrx.left != 0 || vrx.right != 0 || vrx.weight != 0 then (b, .error [.unexpected, .panic]) else
+  if !spc.canonB then (b, .error [.genesisRejected, .notCanonical]) else
+  if vrx.trx.spice != spc || vrx.signer != b.self || vrx.trx.issuer != b.self || vrx.trx.receiver != receiver
+      || vrx.left != 0 || vrx.right != 0 || vrx.weight != 0 || !vrx.vok then (b, .error [.unexpected, .panic]) else
   match b.indexSave vrx.trx.hash vrx.hash with
   | none => (b, .error [.genesisRejected, .trxExists])
   | some b1 =>
@@ -470,7 +480,7 @@ def streamDag (b : Book) (order : List Vertex) : List Vertex :=
     (out ++ [l.hash] ++ anc, visited ++ anc)) ([], [])).1.filterMap b.getVertex
 
 /-- Second phase of LoadDag for one vertex (accountant.go:700-726). -/
-def loadLink (b : Book) (v : Vertex) : Option Book := linkNew b v [v.left, v.right]
+def loadLink (b : Book) (v : Vertex) : Option Book := linkNew b v.hash 0 [v.left, v.right]
 
 /-- accountant.go LoadDag. `scan` is the iteration order of `GetVertices()`, `root` the root the
 genesis address is taken from. Deferred weight/throughput updates run on every path past the guard. -/
@@ -497,6 +507,7 @@ def loadDag (b : Book) (stream scan : List Vertex) (root : Option Vertex) : Book
         let self := v.trx.issuer == v.signer
         if self && seenSelf then (b, seenSelf, some [.unexpected]) else
         if v.trx.isEmpty then (b, seenSelf || self, some [.unexpected]) else
+        if !v.trx.spice.canonB then (b, seenSelf || self, some [.notCanonical]) else
         match loadLink b v with
         | none => (b, seenSelf || self, some [.idUnknown])
         | some b' => (b', seenSelf || self, none)) (b1, false, none)
